@@ -81,10 +81,29 @@ impl<'a> IndexBuilder<'a> {
                 }
                 .into());
             }
+            if k.as_bytes().contains(&0) {
+                // the trie builder uses the zero byte as its key terminator
+                return Err(DicBuildError {
+                    file: format!("entry {:?}", k),
+                    line: 0,
+                    cause: BuildFailure::TrieBuildFailure,
+                }
+                .into());
+            }
             trie_entries.push((k, v.offset as u32));
         }
         self.data.shrink_to_fit();
         trie_entries.sort_by(|(a, _), (b, _)| a.cmp(b));
+
+        if trie_entries.is_empty() {
+            // the trie builder requires at least one key
+            return Err(DicBuildError {
+                file: "<trie>".to_owned(),
+                line: 0,
+                cause: BuildFailure::TrieBuildFailure,
+            }
+            .into());
+        }
 
         let trie = yada::builder::DoubleArrayBuilder::build(&trie_entries);
         match trie {
